@@ -113,6 +113,9 @@ func (h *c09H) txMsg(sub string) (msg sdk.Msg, ok bool) {
 		x := authz.NewMsgExec(h.e.relayer, []sdk.Msg{u})
 		return &x, true
 	case "lc_update":
+		if m["w"] == "group" {
+			return nil, false // the stored-proposal route is two transactions (submit, vote): stand-alone op only
+		}
 		ci, cid := h.clientByTok(f[1])
 		hd := h.hdrFromLine(h.chainOfClient(ci), m, atou(m["root"]))
 		inner, err := clienttypes.NewMsgUpdateClient(cid, hd, h.e.relayer.String())
@@ -121,6 +124,9 @@ func (h *c09H) txMsg(sub string) (msg sdk.Msg, ok bool) {
 		}
 		return h.wrapRoute(m["w"], inner), true
 	case "lc_misb":
+		if strings.HasSuffix(m["k"], "Group") {
+			return nil, false
+		}
 		ci, cid := h.clientByTok(f[1])
 		chain := h.chainOfClient(ci)
 		mb := ibctm.NewMisbehaviour(cid, h.hdrFromLine(chain, m, atou(m["root"])), h.hdrFromLine(chain, m, atou(m["root"])+1))
